@@ -44,6 +44,9 @@ type ssaCtx struct {
 	extTypes map[string]bool
 	seenNamed map[*types.Named]bool
 	errs    []string
+	tyIds   map[string]int // layout table: Lean term of the entry -> index
+	tyDefs  []string
+	tyBusy  map[*types.Named]bool
 }
 
 func (c *ssaCtx) errf(f string, a ...interface{}) {
@@ -228,6 +231,159 @@ func (c *ssaCtx) vk(t types.Type) vkind {
 	}
 	c.errf("unknown type %T (%s)", t.Underlying(), t)
 	return vkNone
+}
+
+// ---------- layouts (for the execution semantics) ----------
+
+func (c *ssaCtx) internTy(term string) int {
+	if c.tyIds == nil {
+		c.tyIds = map[string]int{".unsupported": 0}
+		c.tyDefs = []string{".unsupported"}
+		c.tyBusy = map[*types.Named]bool{}
+	}
+	if i, ok := c.tyIds[term]; ok {
+		return i
+	}
+	i := len(c.tyDefs)
+	c.tyIds[term] = i
+	c.tyDefs = append(c.tyDefs, term)
+	return i
+}
+
+// tyId: index of the layout of t in Program.types (component types get smaller indices)
+func (c *ssaCtx) tyId(t types.Type) int {
+	c.internTy(".unsupported")
+	if t == nil {
+		return 0
+	}
+	if n, ok := t.(*types.Named); ok {
+		if o := n.Obj(); o != nil && o.Pkg() != nil && o.Pkg().Path() == "sync" && o.Name() == "Once" {
+			return c.internTy(".once")
+		}
+		if c.tyBusy[n] {
+			return 0 // recursive type: not representable in the flat layout
+		}
+		c.tyBusy[n] = true
+		defer delete(c.tyBusy, n)
+	}
+	switch u := t.Underlying().(type) {
+	case *types.Basic:
+		info := u.Info()
+		switch {
+		case u.Kind() == types.UnsafePointer || u.Kind() == types.Uintptr:
+			return 0
+		case u.Kind() == types.UntypedNil:
+			return c.internTy(".ptr 0")
+		case info&types.IsBoolean != 0:
+			return c.internTy(".bool")
+		case info&types.IsInteger != 0:
+			return c.internTy(fmt.Sprintf(".int %d %v", intWidth(t), info&types.IsUnsigned == 0))
+		case info&types.IsString != 0:
+			return c.internTy(".str")
+		}
+		return 0
+	case *types.Pointer:
+		return c.internTy(fmt.Sprintf(".ptr %d", c.tyId(u.Elem())))
+	case *types.Slice:
+		return c.internTy(fmt.Sprintf(".slice %d", c.tyId(u.Elem())))
+	case *types.Signature:
+		return c.internTy(".func")
+	case *types.Interface:
+		return c.internTy(".iface")
+	case *types.Array:
+		return c.internTy(fmt.Sprintf(".arr %d %d", u.Len(), c.tyId(u.Elem())))
+	case *types.Struct:
+		var fs []string
+		for i := 0; i < u.NumFields(); i++ {
+			fs = append(fs, fmt.Sprint(c.tyId(u.Field(i).Type())))
+		}
+		return c.internTy(".struct [" + strings.Join(fs, ", ") + "]")
+	case *types.Tuple:
+		var fs []string
+		for i := 0; i < u.Len(); i++ {
+			fs = append(fs, fmt.Sprint(c.tyId(u.At(i).Type())))
+		}
+		return c.internTy(".struct [" + strings.Join(fs, ", ") + "]")
+	}
+	return 0
+}
+
+func (c *ssaCtx) tyIdsOf(vs []ssa.Value) string {
+	var ss []string
+	for _, v := range vs {
+		if v == nil {
+			continue
+		}
+		ss = append(ss, fmt.Sprint(c.tyId(v.Type())))
+	}
+	return "[" + strings.Join(ss, ", ") + "]"
+}
+
+// types of the operands of an instruction, in the order of Lean's `Op.operands`
+func (c *ssaCtx) opTys(in ssa.Instruction) string {
+	switch x := in.(type) {
+	case *ssa.BinOp:
+		return c.tyIdsOf([]ssa.Value{x.X, x.Y})
+	case *ssa.UnOp:
+		return c.tyIdsOf([]ssa.Value{x.X})
+	case *ssa.Call:
+		vs := []ssa.Value{}
+		if x.Call.IsInvoke() {
+			vs = append(vs, x.Call.Value)
+		} else {
+			switch x.Call.Value.(type) {
+			case *ssa.Builtin, *ssa.Function:
+			default:
+				vs = append(vs, x.Call.Value)
+			}
+		}
+		return c.tyIdsOf(append(vs, x.Call.Args...))
+	case *ssa.ChangeType:
+		return c.tyIdsOf([]ssa.Value{x.X})
+	case *ssa.Convert:
+		return c.tyIdsOf([]ssa.Value{x.X})
+	case *ssa.SliceToArrayPointer:
+		return c.tyIdsOf([]ssa.Value{x.X})
+	case *ssa.Extract:
+		return c.tyIdsOf([]ssa.Value{x.Tuple})
+	case *ssa.FieldAddr:
+		return c.tyIdsOf([]ssa.Value{x.X})
+	case *ssa.Field:
+		return c.tyIdsOf([]ssa.Value{x.X})
+	case *ssa.IndexAddr:
+		return c.tyIdsOf([]ssa.Value{x.X, x.Index})
+	case *ssa.Index:
+		return c.tyIdsOf([]ssa.Value{x.X, x.Index})
+	case *ssa.Lookup:
+		return c.tyIdsOf([]ssa.Value{x.X, x.Index})
+	case *ssa.Slice:
+		return c.tyIdsOf([]ssa.Value{x.X, x.Low, x.High, x.Max})
+	case *ssa.MakeSlice:
+		return c.tyIdsOf([]ssa.Value{x.Len, x.Cap})
+	case *ssa.MakeClosure:
+		return c.tyIdsOf(append([]ssa.Value{x.Fn}, x.Bindings...))
+	case *ssa.MakeInterface:
+		return c.tyIdsOf([]ssa.Value{x.X})
+	case *ssa.Phi:
+		return c.tyIdsOf(x.Edges)
+	case *ssa.Store:
+		return c.tyIdsOf([]ssa.Value{x.Addr, x.Val})
+	case *ssa.If:
+		return c.tyIdsOf([]ssa.Value{x.Cond})
+	case *ssa.Return:
+		return c.tyIdsOf(x.Results)
+	case *ssa.Panic:
+		return c.tyIdsOf([]ssa.Value{x.X})
+	case *ssa.Alloc, *ssa.Jump:
+		return "[]"
+	}
+	var vs []ssa.Value
+	for _, p := range in.Operands(nil) {
+		if *p != nil {
+			vs = append(vs, *p)
+		}
+	}
+	return c.tyIdsOf(vs)
 }
 
 // ---------- operands ----------
@@ -486,7 +642,7 @@ func (c *ssaCtx) relFile(name string) string {
 }
 
 func (c *ssaCtx) param(v ssa.Value, name string) string {
-	return fmt.Sprintf("⟨%s, %s, %s⟩", c.nm(name), c.nm(c.tyStr(v.Type())), c.vk(v.Type()).s)
+	return fmt.Sprintf("⟨%s, %s, %s, %d⟩", c.nm(name), c.nm(c.tyStr(v.Type())), c.vk(v.Type()).s, c.tyId(v.Type()))
 }
 
 func recvNamed(f *ssa.Function) *types.Named {
@@ -527,7 +683,7 @@ func (c *ssaCtx) printFunc(sb *strings.Builder, idx int, f *ssa.Function) (ninst
 	if f.Parent() == nil && f.Synthetic == "" && f.Object() != nil {
 		exported = f.Object().Exported()
 	}
-	var ps, fvs, rs []string
+	var ps, fvs, rs, rts []string
 	for _, p := range f.Params {
 		ps = append(ps, c.param(p, p.Name()))
 	}
@@ -537,6 +693,7 @@ func (c *ssaCtx) printFunc(sb *strings.Builder, idx int, f *ssa.Function) (ninst
 	res := f.Signature.Results()
 	for i := 0; i < res.Len(); i++ {
 		rs = append(rs, c.vk(res.At(i).Type()).s)
+		rts = append(rts, fmt.Sprint(c.tyId(res.At(i).Type())))
 	}
 	parent := "none"
 	if f.Parent() != nil {
@@ -548,8 +705,8 @@ func (c *ssaCtx) printFunc(sb *strings.Builder, idx int, f *ssa.Function) (ninst
 	}
 	fmt.Fprintf(sb, "/-- %s -/\ndef f%d : Func := {\n  name := %s, pkg := %s, recv := %s, base := %s, exported := %v, recvExported := %v,\n",
 		c.short(f.RelString(nil)), idx, c.nm(c.short(f.RelString(nil))), c.nm(c.pkgName(f.Pkg.Pkg)), c.nm(recv), c.nm(base), exported, recvExp)
-	fmt.Fprintf(sb, "  params := [%s], freeVars := [%s], results := [%s], parent := %s, synthetic := %s, file := %s, line := %d,\n  blocks := [\n",
-		strings.Join(ps, ", "), strings.Join(fvs, ", "), strings.Join(rs, ", "), parent, c.nm(f.Synthetic), c.nm(c.relFile(fpos.Filename)), fpos.Line)
+	fmt.Fprintf(sb, "  params := [%s], freeVars := [%s], results := [%s], parent := %s, synthetic := %s, file := %s, line := %d,\n  resultTys := [%s],\n  blocks := [\n",
+		strings.Join(ps, ", "), strings.Join(fvs, ", "), strings.Join(rs, ", "), parent, c.nm(f.Synthetic), c.nm(c.relFile(fpos.Filename)), fpos.Line, strings.Join(rts, ", "))
 	lastLine := fpos.Line
 	for bi, b := range f.Blocks {
 		if b.Index != bi {
@@ -565,10 +722,12 @@ func (c *ssaCtx) printFunc(sb *strings.Builder, idx int, f *ssa.Function) (ninst
 				lastLine = p.Line
 			}
 			k := vkNone
+			ty := 0
 			if v, ok := in.(ssa.Value); ok {
 				k = c.vk(v.Type())
+				ty = c.tyId(v.Type())
 			}
-			is = append(is, fmt.Sprintf("    ⟨%d, %s, %d, %s⟩", id, k.s, lastLine, c.op(f, in)))
+			is = append(is, fmt.Sprintf("    ⟨%d, %s, %d, %s, %d, %s⟩", id, k.s, lastLine, c.op(f, in), ty, c.opTys(in)))
 			ninstr++
 		}
 		idxs := func(bs []*ssa.BasicBlock) string {
@@ -721,7 +880,7 @@ func translateSSA(repo string) (string, []string) {
 			pk = c.pkgName(g.Pkg.Pkg)
 		}
 		et := g.Type().Underlying().(*types.Pointer).Elem()
-		gl = append(gl, fmt.Sprintf("  ⟨%s, %s, %v, %s, %s⟩", c.nm(c.short(g.RelString(nil))), c.nm(pk), local, c.nm(c.tyStr(et)), c.vk(et).s))
+		gl = append(gl, fmt.Sprintf("  ⟨%s, %s, %v, %s, %s, %d⟩", c.nm(c.short(g.RelString(nil))), c.nm(pk), local, c.nm(c.tyStr(et)), c.vk(et).s, c.tyId(et)))
 	}
 	hints := c.inferHints()
 
@@ -765,8 +924,12 @@ func translateSSA(repo string) (string, []string) {
 	for i := range c.fns {
 		fl = append(fl, fmt.Sprintf("f%d", i))
 	}
-	fmt.Fprintf(&out, "def prog : Program := {\n  funcs := [%s],\n  globals := [\n%s],\n  imports := [%s],\n  externTypes := [%s],\n  asmInDefaultBuild := [%s] }\n\n",
-		strings.Join(fl, ", "), strings.Join(gl, ",\n"), strings.Join(imports, ", "), strings.Join(ets, ", "), strings.Join(asm, ", "))
+	var tl []string
+	for i, t := range c.tyDefs {
+		tl = append(tl, fmt.Sprintf("  /- %d -/ %s", i, t))
+	}
+	fmt.Fprintf(&out, "def prog : Program := {\n  funcs := [%s],\n  globals := [\n%s],\n  types := #[\n%s],\n  imports := [%s],\n  externTypes := [%s],\n  asmInDefaultBuild := [%s] }\n\n",
+		strings.Join(fl, ", "), strings.Join(gl, ",\n"), strings.Join(tl, ",\n"), strings.Join(imports, ", "), strings.Join(ets, ", "), strings.Join(asm, ", "))
 	out.WriteString("/-- inferred labellings (untrusted; re-checked in Lean), parallel to `prog.funcs` -/\ndef hints : List FuncHints := [\n")
 	out.WriteString(strings.Join(hints, ",\n"))
 	out.WriteString("\n]\n\nend EdVerif.Gen.Ssa\n")
